@@ -136,12 +136,12 @@ def osetStr (o : OSet) : String :=
 def stepModel (scn : Scn) (cfg : Cfg) (st : JStep) (s : Sys) : Sys × String :=
   match st.op with
   | "reconcile" =>
-    let s0 : Sys := { s with w := { s.w with writes := 0, env := (st.env.getD []).map toEnv, events := [], phaseEvents := [] },
+    let s0 : Sys := { s with w := { s.w with writes := 0, env := (st.env.getD []).map toEnv, events := [], phaseEvents := [], applied := [] },
                              setEvents := [], setWrites := 0, setEnv := (st.setEnv.getD []).map toSetEnv }
     let (s1, r) := reconcile cfg Pko.Model.Remote.remotes st.set s0
     (s1, stepOut r s1)
   | "phase" =>
-    let s0 : Sys := { s with w := { s.w with writes := 0, env := (st.env.getD []).map toEnv, events := [], phaseEvents := [] },
+    let s0 : Sys := { s with w := { s.w with writes := 0, env := (st.env.getD []).map toEnv, events := [], phaseEvents := [], applied := [] },
                              setEvents := [], setWrites := 0, setEnv := [] }
     let (s1, r) := Pko.Model.Remote.reconcilePhaseCtl (phaseCfgOf scn) (setKindOf scn) (nsOf scn) st.set s0
     (s1, stepOut r s1)
@@ -156,7 +156,7 @@ def stepModel (scn : Scn) (cfg : Cfg) (st : JStep) (s : Sys) : Sys × String :=
 where
   stepOut (r : Res) (s1 : Sys) : String :=
     let pk := Pko.Model.Remote.phaseKindOf (setKindOf scn)
-    s!"R {resStr r} | {";".intercalate (s1.w.events.map eventStr)} | {";".intercalate (s1.setEvents.map setEventStr)} | {";".intercalate (s1.w.phaseEvents.map (phaseEventStr pk))}"
+    s!"R {resStr r} | {eventsStr s1.w} | {";".intercalate (s1.setEvents.map setEventStr)} | {";".intercalate (s1.w.phaseEvents.map (phaseEventStr pk))}"
 
 def setNames (s : Scn) : List String := (s.sets.getD []).map (·.name)
 
